@@ -85,16 +85,32 @@ def _install():
 
     _state = {}
 
+    def profiler(frame, event, arg):
+        # calls made BY the evaluated expression: C functions (abs, len, exec, __import__ ...) and Python
+        # functions that do not belong to sympy (the vocabulary's callables and operators all do)
+        if event == "c_call":
+            if frame.f_code.co_filename == EXPR_FILE:
+                _events.append("call:" + ascii(getattr(arg, "__qualname__", type(arg).__name__)).strip("'"))
+        elif event == "call":
+            back = frame.f_back
+            if back is not None and back.f_code.co_filename == EXPR_FILE and frame.f_code.co_filename != EXPR_FILE:
+                mod = str(frame.f_globals.get("__name__", ""))
+                if not (mod == "sympy" or mod.startswith("sympy.") or mod == __name__):
+                    _events.append("call:" + ascii(mod + "." + frame.f_code.co_qualname).strip("'"))
+
     def eval_expr(code, local_dict, global_dict):
         rec = _Rec(local_dict)
         co = code
         if isinstance(code, str):
             co = compile(code, EXPR_FILE, "eval")
         old = sys.gettrace()
+        oldp = sys.getprofile()
         sys.settrace(tracer)
+        sys.setprofile(profiler)
         try:
             return eval(co, global_dict, rec)  # noqa: S307 - this is sympy's own eval_expr, instrumented
         finally:
+            sys.setprofile(oldp)
             sys.settrace(old)
             _state.clear()
             bi = global_dict.get("__builtins__", builtins)
@@ -511,9 +527,188 @@ def _observe_string(case):
     return out
 
 
+def _observe_py(case):
+    """Python-corner string with the parser warm (eval() has planted __builtins__ in the shared dict) or cold."""
+    import unyt._parsing as up
+
+    if case["warm"]:
+        _construct("m", None)
+        warm = "__builtins__" in up.global_dict
+    else:
+        up.global_dict.pop("__builtins__", None)
+        warm = False
+    del _events[:]
+    o, _u = _construct(case["s"], None)
+    ev = sorted(set(_events))
+    return {"k": "py", "h": case["h"], "tr": case["tr"], "w": case["w"], "warm": case["warm"], "iswarm": warm, "o": o, "ev": ev}
+
+
+# ---- persistence ------------------------------------------------------------
+class _FakeAttrs(dict):
+    pass
+
+
+class _FakeDataset:
+    def __init__(self, data):
+        import numpy as np
+
+        self._d = np.array(data)
+        self.attrs = _FakeAttrs()
+
+    shape = property(lambda self: self._d.shape)
+    dtype = property(lambda self: self._d.dtype)
+
+    def __getitem__(self, k):
+        return self._d[k]
+
+    def __setitem__(self, k, v):
+        import numpy as np
+
+        self._d[k] = np.asarray(v)
+
+
+class _FakeGroup(dict):
+    def create_group(self, name):
+        self[name] = _FakeGroup()
+        return self[name]
+
+    def create_dataset(self, name, data=None):
+        self[name] = _FakeDataset(data)
+        return self[name]
+
+
+_FAKE_FILES = {}
+
+
+class _FakeFile(_FakeGroup):
+    """in-memory stand-in for h5py.File: only unyt's side of the HDF5 route is exercised."""
+
+    def __new__(cls, filename, mode="r"):
+        if filename not in _FAKE_FILES:
+            _FAKE_FILES[filename] = _FakeGroup.__new__(cls)
+            dict.__init__(_FAKE_FILES[filename])
+        return _FAKE_FILES[filename]
+
+    def __init__(self, filename, mode="r"):
+        pass
+
+    def close(self):
+        pass
+
+
+def _install_fake_h5py():
+    import types
+
+    if "h5py" not in sys.modules:
+        mod = types.ModuleType("h5py")
+        mod.File = _FakeFile
+        mod.__version__ = "0-verif-stub"
+        sys.modules["h5py"] = mod
+
+
+def _persist_registry(rk):
+    """(registry, text of the special symbol S) for a registry kind of Parser.tla."""
+    d = _U["dims"]
+    uq = _U["unyt"].unyt_quantity
+    reg = _U["UnitRegistry"]()
+    if rk == "default":
+        return reg, "pc"
+    if rk == "user":
+        reg.add("code_length", 3.5e19, d.length)
+        return reg, "code_length"
+    if rk == "userpfx":
+        reg.add("foo_bar", 7.0, d.time, prefixable=True)
+        return reg, "foo_bar"
+    if rk == "usermod":
+        reg.add("code_length", 3.5e19, d.length)
+        reg.modify("code_length", 4.5e20)
+        return reg, "code_length"
+    if rk == "modify":
+        reg.modify("Msun", 1.9891e30)
+        return reg, "Msun"
+    if rk == "modifyq":
+        reg.modify("pc", uq(3.0856e16, "m"))
+        return reg, "pc"
+    if rk == "readd":
+        reg.add("pc", 3.0856e16, d.length, prefixable=True)
+        return reg, "pc"
+    if rk == "mixed":
+        reg.modify("pc", uq(3.0856e16, "m"))
+        reg.add("code_time", 3.15e13, d.time)
+        return reg, "(pc/code_time)"
+    raise ValueError(rk)
+
+
+def _observe_persist(case):
+    import pickle as pk
+    import tempfile
+
+    unyt = _U["unyt"]
+    Unit = _U["Unit"]
+    rk, form, ca, rt = case["rk"], case["f"], case["ca"], case["rt"]
+    reg, S = _persist_registry(rk)
+    text = {"S": S, "S**2": S + "**2", "S/s": S + "/s", "kS": "k" + S}[form]
+    u = Unit(text, registry=reg)
+    if ca == "array":
+        obj = unyt.unyt_array([1.0, 2.0], text, registry=reg)
+    elif ca == "quantity":
+        obj = unyt.unyt_quantity(3.0, text, registry=reg)
+    else:
+        obj = u
+    w = {"dim": _dimvec(u.dimensions), "off": repr(float(u.base_offset)), "text": ascii(str(u))}
+    try:
+        stock = float(Unit(text, registry=_U["UnitRegistry"]()).base_value)
+    except Exception:  # noqa: BLE001 - user symbols have no stock reading
+        stock = None
+    exc = ""
+    try:
+        if rt.startswith("pickle"):
+            back = pk.loads(pk.dumps(obj, protocol=int(rt[6:])))
+        elif rt == "savetxt":
+            fd, path = tempfile.mkstemp(prefix="unytverif_c20_", suffix=".txt")
+            os.close(fd)
+            try:
+                unyt.savetxt(path, obj)
+                back = unyt.loadtxt(path)
+            finally:
+                os.unlink(path)
+        elif rt == "string":
+            back = unyt.unyt_quantity.from_string(obj.to_string(), unit_registry=reg)
+        else:
+            _install_fake_h5py()
+            name = "c20_%d.h5" % len(_FAKE_FILES)
+            obj.write_hdf5(name)
+            back = type(obj).from_hdf5(name) if ca == "array" else unyt.unyt_array.from_hdf5(name)
+            _FAKE_FILES.pop(name, None)
+        v = back if ca == "unit" else back.units
+        # the re-read text, read against the re-read registry, must denote the same unit too
+        v2 = Unit(str(v), registry=v.registry)
+        r = {"o": "Ok", "dim": _dimvec(v.dimensions), "off": repr(float(v.base_offset)), "sc": _which(v, v2, u, stock), "text": ascii(str(v))}
+    except Exception as e:  # noqa: BLE001 - the reader refused
+        exc = type(e).__name__
+        r = {"o": "Raise", "dim": [], "off": "", "sc": "", "text": ""}
+    return {"k": "persist", "rk": rk, "f": form, "ca": ca, "rt": rt, "w": w, "r": r, "exc": exc}
+
+
+def _which(v, v2, u, stock):
+    def close(a, b):
+        return a == b or math.isclose(a, b, rel_tol=1e-12, abs_tol=0.0)
+
+    a, b, want = float(v.base_value), float(v2.base_value), float(u.base_value)
+    if close(a, want) and close(b, want):
+        return "written"
+    if stock is not None and (close(a, stock) or close(b, stock)):
+        return "stock"
+    return "other"
+
+
 def _inner(case):
     if case["k"] == "ast":
         return _observe_ast(case)
+    if case["k"] == "py":
+        return _observe_py(case)
+    if case["k"] == "persist":
+        return _observe_persist(case)
     return _observe_string(case)
 
 
@@ -595,6 +790,11 @@ def _hang(case):
     if case["k"] == "ast":
         n = len(case["sp"])
         return {"k": "ast", "a": case["a"], "sem": case["sem"], "sp": [_fail("Hang") for _ in range(n)], "rt": [], "texts": [], "negscale": False}
+    if case["k"] == "persist":
+        return {"k": "persist", "rk": case["rk"], "f": case["f"], "ca": case["ca"], "rt": case["rt"], "w": {"dim": [], "off": "", "text": ""},
+                "r": {"o": "Hang", "dim": [], "off": "", "sc": "", "text": ""}, "exc": "Hang"}
+    if case["k"] == "py":
+        return {"k": "py", "h": case["h"], "tr": case["tr"], "w": case["w"], "warm": case["warm"], "iswarm": False, "o": "Hang", "ev": []}
     out = {"k": case["k"], "o": "Hang", "ev": []}
     if case["k"] == "tok":
         out["t"] = case["t"]
